@@ -321,8 +321,12 @@ impl GqlTranslator {
                 });
             }
 
-            // SKIP and LIMIT select rows of the ordered (and aggregated) result
-            plan = Self::apply_skip_limit(&query.return_clause, plan);
+            // SKIP and LIMIT select rows of the ordered result.  With RETURN DISTINCT they select
+            // rows of the de-duplicated result, so they go above the Return operator (which is
+            // where DISTINCT is planned), as in the Cypher translator.
+            if !query.return_clause.distinct {
+                plan = Self::apply_skip_limit(&query.return_clause, plan);
+            }
 
             // Apply RETURN
             let return_items = query
@@ -342,6 +346,9 @@ impl GqlTranslator {
                 distinct: query.return_clause.distinct,
                 input: Box::new(plan),
             });
+            if query.return_clause.distinct {
+                plan = Self::apply_skip_limit(&query.return_clause, plan);
+            }
         }
 
         Ok(LogicalPlan::new(plan))
